@@ -940,6 +940,17 @@ def c08_families(tier, seed, ids=None):
         twins.append(s2)
         pairs.append((s1, s2))
     out = [("sessions with injected failures", ss, ("value", "residue")), ("twin sessions (failure replaced by its completed assignments)", twins, ("value", "residue"))]
+    # a failed statement leaves no trace in what later statements read from standard input (the input the interpreter has already
+    # buffered included): statements that fail in every way, between reads
+    sd = []
+    lines = ["10\n", "20\n", "30\n", "forty\n", "50\n", "60\n", "70\n"]
+    kinds = {"division": bin_("/", I(1), I(0)), "inside a call": call("boom", I(2), I(0)), "in a generator": fr(["i"], [call("badgen", I(0))], assign("gw", N("i"))), "type": bin_("+", St("s"), I(1)),
+             "conversion": call("aton", St("zz")), "index": ix1(lst([I(1)]), I(4)), "parse error": {"perr": True, "src": "ga = 1 +"}, "failing read statement": bin_("+", call("read"), I(1)),
+             "conversion of what was read": call("aton", call("read"))}
+    for kname, f in kinds.items():
+        items = list(prelude) + [assign("ra", call("read")), f, assign("rb", call("read")), lst([N("ra"), N("rb")]), f, f, assign("rc", call("read")), bin_("+", N("rb"), N("rc")), call("read")]
+        sd.append(mk(ids, items, {"fails": [kname], "stdin": True}, stdin=lines))
+    out.append(("failing statements between reads of standard input", sd, ("value", "residue")))
     rs = gens.random_sessions(40 if tier == "quick" else 2000, seed, "c08", p_ill=0.15, first_id=700000)
     out.append(("random sessions with type confusion (errors in the middle)", rs, ("value", "residue")))
     return out, pairs
